@@ -338,6 +338,7 @@ def run_seq(ctx, case):
             # final drain: until nothing is returned twice in a row and nothing scheduled is due
             idle = 0
             deadline = time.monotonic() + 20
+            budget = D.stream + D.unget + D.events + D.sigints + len(D.sched) + 8
             while idle < 2:
                 if time.monotonic() > deadline:
                     ctx.inconclusive_because("drain did not finish within 20 s")
@@ -345,6 +346,10 @@ def run_seq(ctx, case):
                 ret = request(0.002 if D.sched else 0)
                 if ret[0] == "raise":
                     break
+                if ret[0] != "none":
+                    budget -= 1
+                    if budget < 0:
+                        break       # more returned than was ever put in: the history checker reports what was duplicated
                 idle = idle + 1 if ret[0] == "none" and not any(w < time.time() for w in D.sched.values()) else 0
                 if ret[0] == "none" and D.sched and min(D.sched.values()) > time.time():
                     time.sleep(max(0, min(D.sched.values()) - time.time()))
@@ -887,7 +892,7 @@ def run_names(ctx, case):
                     want = None     # the decoder itself fails on this burst (recorded under C03): no exception expected, names not judged
                 got = []
                 exc = None
-                while True:
+                while len(got) <= len(data) + 8:        # no more keypresses than bytes: a key handed out again and again ends here
                     try:
                         e = inp.send(0)
                     except Exception as ex:  # noqa
@@ -1276,6 +1281,57 @@ def run_pairs(ctx, case):
     ctx.count("pair_rounds", rounds)
     ctx.judge(not lost and not wrong, case, sig, "C08:events", "both events of every round, in trigger order",
               (lost or wrong)[:2])
+
+
+class Runaway(BaseException):
+    """30 s of this process's own CPU time (ITIMER_VIRTUAL: time spent waiting, or taken by other
+    processes on a loaded machine, does not count) went by inside one history."""
+
+
+_GUARD = [False]
+CPU_BUDGET = 30.0
+
+
+def _guarded(fn):
+    def guarded(ctx, case, *a, **kw):
+        if _GUARD[0] or threading.current_thread() is not threading.main_thread():
+            return fn(ctx, case, *a, **kw)
+
+        def on_timer(sig, frame):
+            inside = None
+            f = frame
+            while f is not None:
+                if f.f_code.co_filename.endswith(os.sep + "input.py") and f.f_code.co_name in ("send", "_send", "find_key"):
+                    inside = f.f_code.co_name
+                    break
+                f = f.f_back
+            raise Runaway(inside)
+        old = signal.signal(signal.SIGVTALRM, on_timer)
+        _GUARD[0] = True
+        budget = CPU_BUDGET if not _GUARD[1:] else 2.0      # once a runaway request has been seen, the rest of the run only needs to finish
+        signal.setitimer(signal.ITIMER_VIRTUAL, budget)
+        try:
+            return fn(ctx, case, *a, **kw)
+        except Runaway as ex:
+            if ex.args[0] and not _GUARD[1:]:
+                _GUARD.append("seen")
+                # a single request that computes for 30 CPU-seconds without returning: whatever
+                # its timeout, it neither delivers nor gives up
+                ctx.judge(False, case, mech="C08:request-computes-without-returning",
+                          expected="every request returns", got="%d s of CPU time inside Input.%s" % (CPU_BUDGET, ex.args[0]))
+            elif not _GUARD[1:]:
+                ctx.inconclusive_because("a history used %d s of CPU time outside any request" % CPU_BUDGET)
+        finally:
+            signal.setitimer(signal.ITIMER_VIRTUAL, 0)
+            signal.signal(signal.SIGVTALRM, old)
+            _GUARD[0] = False
+    guarded.__name__ = fn.__name__
+    return guarded
+
+
+for _n in ("run_seq", "run_buffered", "run_split", "run_prefixchar", "run_lateunit", "run_behind_incomplete",
+           "run_trickle", "run_flood", "run_names", "run_conc", "run_pingpong", "run_pairs_blocking", "run_pairs"):
+    globals()[_n] = _guarded(globals()[_n])
 
 
 def run_case(ctx, case):
